@@ -839,6 +839,11 @@ pub fn profiles(thorough: bool) -> Vec<KProf> {
         KProf { name: "insert-heavy-long-lived", u: 40, len: 300, r: 60, tick_num: 1, tick_den: 4, tick_jump: 3, w: [50, 10, 10, 10, 10, 1, 1], ..base.clone() },
         KProf { name: "medium", u: 120, len: 900 * big, r: 40, tick_num: 1, tick_den: 3, tick_jump: 5, w: [40, 12, 12, 12, 14, 1, 1], ..base.clone() },
         KProf { name: "large", u: 1500, len: 5000 * big, r: 700, tick_num: 1, tick_den: 3, tick_jump: 30, w: [55, 10, 10, 10, 10, 1, 0], ..base.clone() },
+        // regime changes: bursts that fill the whole universe at one time, clock jumps that land exactly
+        // on / just before / beyond the latest expiration (mass expiry with or without survivors), then
+        // queries and re-insertions into a tree that is physically full of dead entries
+        KProf { name: "phased", u: 150, len: 700, r: 30, tick_num: 1, tick_den: 4, tick_jump: 3, w: [30, 12, 12, 12, 14, 1, 1], ..base.clone() },
+        KProf { name: "phased-small", u: 9, len: 90, r: 4, tick_num: 1, tick_den: 4, tick_jump: 2, ..base.clone() },
         KProf { name: "clear-heavy", u: 8, len: 90, r: 3, w: [30, 10, 10, 10, 10, 4, 8], ..base.clone() },
         KProf { name: "clock-near-max", u: 7, len: 90, r: 3, tick_num: 1, tick_den: 2, tick_jump: 2, t_base: i32::MAX - 400, immortal: 6, ..base.clone() },
         KProf { name: "clock-near-min", u: 7, len: 90, r: 3, tick_num: 1, tick_den: 2, tick_jump: 2, t_base: i32::MIN + 4, immortal: 6, ..base.clone() },
@@ -867,6 +872,47 @@ pub fn gen_history(p: &KProf, rng: &mut Rng) -> (usize, Vec<KOp>) {
             t = t.saturating_add(rng.range(1, p.tick_jump as i64) as i32).min(i32::MAX - 1);
         } else if rng.chance(1, 40) {
             stall = rng.range(5, 25);
+        }
+        if p.name.starts_with("phased") && rng.chance(1, if p.u > 20 { 60 } else { 25 }) {
+            if rng.chance(1, 2) {
+                // burst: every key that is not live is inserted now, in one order, lifetimes 1 / r / 3r
+                let free: Vec<i32> = (0..p.u).filter(|&i| exp[i as usize] <= t).collect();
+                let mut order: Vec<i32> = free.clone();
+                match rng.below(3) {
+                    0 => order.reverse(),
+                    1 => rng.shuffle(&mut order),
+                    _ => {}
+                }
+                let keep = rng.range(order.len() as i64 / 2, order.len() as i64) as usize;
+                for &i in order.iter().take(keep) {
+                    let d = *rng.pick(&[1, p.r, 3 * p.r, p.r / 2 + 1]);
+                    let e = t.saturating_add(d);
+                    exp[i as usize] = e;
+                    ops.push(KOp::Ins { k: 2 * i, exp: e, t });
+                }
+            } else {
+                // clock jump relative to the latest expiration still pending
+                let hi = exp.iter().copied().filter(|&e| e > t && e != i32::MAX).max();
+                if let Some(hi) = hi {
+                    t = match rng.below(4) {
+                        0 => hi,                              // exactly at the last expiration: nothing is live
+                        1 => hi.saturating_sub(1),            // one tick before: only the longest-lived survive
+                        2 => hi.saturating_add(rng.range(1, 5) as i32).min(i32::MAX - 1),
+                        _ => (t as i64 + (hi as i64 - t as i64) / 2) as i32, // half of them gone
+                    }
+                    .max(t);
+                }
+                // and look at the graveyard from several sides before anything else happens
+                for _ in 0..rng.range(1, 4) {
+                    let k = rng.range(-1, 2 * p.u as i64 - 1) as i32;
+                    ops.push(match rng.below(4) {
+                        0 => KOp::Get { t, k },
+                        1 => KOp::Fl { t, k },
+                        2 => KOp::Fle { t, k },
+                        _ => KOp::Fleb { t, k, mode: rng.below(3) as u8 },
+                    });
+                }
+            }
         }
         let mut x = rng.below(wsum as u64) as u32;
         let mut kind = 0;
